@@ -34,9 +34,9 @@ fn c06_forward_n8() {
 #[kani::stub(std::arch::x86_64::__cpuid_count, cpuid_count_stub)]
 #[kani::stub(std::arch::x86_64::__cpuid, cpuid_stub)]
 #[kani::stub(memchr::arch::x86_64::sse2::packedpair::Finder::is_available, no_simd)]
-#[kani::unwind(16)]
-fn c06_forward_n12() {
-    const N: usize = 12;
+#[kani::unwind(14)]
+fn c06_forward_n10() {
+    const N: usize = 10;
     let buf: [u8; N] = kani::any();
     let n: usize = kani::any();
     kani::assume(n >= 9 && n <= N);
